@@ -26,8 +26,8 @@ E = enums.E
 
 META = {
     "technique": "c2lean translation of the scalar derivative kernels (regenerated every run) + hand model of the FD drivers' bookkeeping + Lean 4 proofs over the reals (HasDerivAt of the damper / affine-actuator force laws as coded; frame argument over the op sequence of the modelled mjd_stepFD / mjd_inverseFD for every opaque step function; exactness of the differencing helpers on affine maps) + bitwise translation validation + trace differential of the modelled drivers against the unmodified mjd_transitionFD / mjd_inverseFD observed through engine callbacks + property oracle on generated models (qDeriv vs central differences, FD Jacobians vs direct perturbation, forward vs centred, state hashes)",
-    "text": "Proved over the reals: the dof/tendon damper force as coded, -v*mju_polyForce(b, poly, v, 2, 1) = -(b v + p0 v|v| + p1 v^3), is differentiable at EVERY v (including 0) with derivative -mjd_xPolyForce(b, poly, v, 2, 1), the term mjd_passive_vel puts on qDeriv; the affine actuator force (g0 + g1 l + g2 v) u + b0 + b1 l + b2 v has velocity derivative b2 + g2 u, the term mjd_actuator_vel adds; the generated mjd_muscleGain_vel is the velocity derivative of the generated mju_muscleGain at every velocity that is not a breakpoint (-1, 0, fvmax-1 in normalised units) of the force-velocity curve, for all parameters (mjMINVAL clamps and the force<0 scaling branch included).  For the modelled mjd_stepFD (as called by mjd_transitionFD) and EVERY stand-in for mj_stepSkip and mj_integratePos (arbitrary functions on mjData), every configuration (requested outputs, centred or not, eps, control limits / ranges / values, warmstart flag, any nv, na, nu): the mjData it leaves behind agrees with the input on every field of restore_spec (time, qpos, qvel, act, history, plugin state, ctrl, and qacc_warmstart unless warmstart is disabled); fields outside restore_spec that the step stand-in does not modify (qfrc_applied, xfrc_applied, mocap, userdata, eq_active) are unchanged too.  For the modelled mjd_inverseFD and every stand-in for inverseSkip that leaves qpos, qvel, qacc alone (the frame condition of inverse dynamics; its necessity is shown by a counterexample) the result agrees with the input on qpos, qvel, qacc (element-wise save/nudge/restore and the full-copy restore of qpos).  diff / clampedStateDiff (state rows) are exact on affine maps in forward, backward and centred mode; clampedDiff (sensor rows of the control Jacobian) is exact in forward and backward mode.",
-    "note": "`_partial`: mjd_rne_vel, the fluid derivatives (mjd_inertiaBoxFluid, mjd_ellipsoidFluid), the sparse J'BJ accumulation and the numerical content of the FD Jacobians are decided by the oracle only.  FIVE GENUINE DEFECTS of the tree are reported by the oracle under stable keys: (1) c25:transitionFD:D-centered-sign, mirrored by theorem clampedDiff_centered_negated: the centred branch of clampedDiff calls diff(dx, x_plus, x_minus, 2h), i.e. (x_minus - x_plus)/(2h), so mjd_transitionFD with flg_centered returns matrix D (d sensor / d ctrl) with the WRONG SIGN for every control that can be nudged both ways; (2) c25:qderiv:actuator:ctrl-outside-ctrlrange: mjd_actuator_vel multiplies the velocity gain by the raw d->ctrl although mj_fwdActuation clamps ctrl to ctrlrange, so for a control outside its range the analytic derivative differs from the derivative of the force that is applied (theorem affine_actuator_vel_deriv is about the input the force law uses); (3) c25:transitionFD:euler-polydamping-stale-factorization: velocity nudges are stepped with skipstage POS, mj_EulerSkip then reuses the factorisation of M + h diag(d damper/d v), which with polynomial damping depends on the nudged velocity: velocity columns of A differ from direct perturbation of mj_step by O(1) relative amounts; (4) c25:transitionFD:implicit-stale-qDeriv-for-ctrl-act: ctrl / act nudges are stepped with skipstage VEL, mj_implicitSkip then reuses qDeriv and its factorisation, which depend on ctrl / act through velocity-dependent actuator gains (affine kv, muscle): B and the act columns of A differ from direct perturbation.  (5) c25:qderiv:passive:ellipsoid-drag-minval-guard: mjd_viscous_drag divides by max(mjMINVAL, sqrt(proj_num^3 proj_denom)), a quantity of order size^12 speed^4 that is below 1e-15 for centimetre-sized non-spherical geoms at centimetres per second, so the d(A_proj)/dv term is lost there and the analytic derivative of the ellipsoid drag is off by percents (exact again when the state is scaled up).  Comparison conventions: qDeriv is compared on the sparsity pattern of M only (documented restriction, computation/index.rst) and the analytic derivative is evaluated with the integrator option set to implicit (implicitfast symmetrises the fluid blocks: documented approximation).  Oracle tolerances: qDeriv vs central differences 3e-5 x scale (eps 1e-6; observed <= 4e-6); FD Jacobians vs direct perturbation 1e-6 x scale / eps-free (same arithmetic on copies); forward vs centred on smooth models (no contacts, limits, friction loss, equalities, cutoffs) 2e-3 x scale; state hashes bitwise.  The trace differential observes the real drivers through mjcb_control (inside every mj_stepSkip) and mjcb_act_gain (inside inverseSkip's mj_fwdActuation) on hinge/slide chains built by the harness; skip stages are observed through sentinels in light_xpos / cdof_dot that only mj_fwdPosition / mj_fwdVelocity rewrite.  Reals, not doubles: rounding is outside the proofs.",
+    "text": "Proved over the reals: the dof/tendon damper force as coded, -v*mju_polyForce(b, poly, v, 2, 1) = -(b v + p0 v|v| + p1 v^3), is differentiable at EVERY v (including 0) with derivative -mjd_xPolyForce(b, poly, v, 2, 1), the term mjd_passive_vel puts on qDeriv; the affine actuator force (g0 + g1 l + g2 v) u + b0 + b1 l + b2 v has velocity derivative b2 + g2 u, the term mjd_actuator_vel adds; the generated mjd_muscleGain_vel is the velocity derivative of the generated mju_muscleGain at every velocity that is not a breakpoint (-1, 0, fvmax-1 in normalised units) of the force-velocity curve, for all parameters (mjMINVAL clamps and the force<0 scaling branch included).  For the modelled mjd_stepFD (as called by mjd_transitionFD) and EVERY stand-in for mj_stepSkip and mj_integratePos (arbitrary functions on mjData), every configuration (requested outputs, centred or not, eps, control limits / ranges / values, warmstart flag, any nv, na, nu): the mjData it leaves behind agrees with the input on every field of restore_spec (time, qpos, qvel, act, history, plugin state, ctrl, and qacc_warmstart unless warmstart is disabled); fields outside restore_spec that the step stand-in does not modify (qfrc_applied, xfrc_applied, mocap, userdata, eq_active) are unchanged too.  For the modelled mjd_inverseFD and every stand-in for inverseSkip that leaves qpos, qvel, qacc alone (the frame condition of inverse dynamics; its necessity is shown by a counterexample) the result agrees with the input on qpos, qvel, qacc (element-wise save/nudge/restore and the full-copy restore of qpos).  diff, clampedStateDiff (state rows) and clampedDiff (sensor rows of the control Jacobian) are exact on affine maps in forward, backward and centred mode, and the two clamped helpers are the same function on plain vectors.",
+    "note": "`_partial`: mjd_rne_vel, the fluid derivatives (mjd_inertiaBoxFluid, mjd_ellipsoidFluid), the sparse J'BJ accumulation and the numerical content of the FD Jacobians are decided by the oracle only.  GENUINE DEFECTS of the tree reported by the oracle under stable keys: (1) c25:transitionFD:D-centered-sign -- FIXED in /repo by 8c58e7e22 (the centred branch of clampedDiff was diff(dx, x_plus, x_minus, 2h); mjd_transitionFD with flg_centered returned D = d sensor / d ctrl with the wrong sign); model and theorem clampedDiff_affine_exact follow the fixed code, the oracle keeps the key as a regression probe (centred D equal to minus the direct perturbation); the remaining four are known findings and each key is assigned only when a second evaluation of the real code confirms the specific mechanism (a different failure of the same routine keeps its generic key): (2) c25:qderiv:actuator:ctrl-outside-ctrlrange: mjd_actuator_vel multiplies the velocity gain by the raw d->ctrl although mj_fwdActuation clamps ctrl to ctrlrange, so for a control outside its range the analytic derivative differs from the derivative of the force that is applied (theorem affine_actuator_vel_deriv is about the input the force law uses) [confirmation: mjd_actuator_vel re-evaluated with d->ctrl clamped agrees with the finite differences]; (3) c25:transitionFD:euler-polydamping-stale-factorization: velocity nudges are stepped with skipstage POS, mj_EulerSkip then reuses the factorisation of M + h diag(d damper/d v), which with polynomial damping depends on the nudged velocity: velocity columns of A differ from direct perturbation of mj_step by O(1) relative amounts [confirmation: the same columns agree when the computation is repeated with the integrator option set to implicit]; (4) c25:transitionFD:implicit-stale-qDeriv-for-ctrl-act: ctrl / act nudges are stepped with skipstage VEL, mj_implicitSkip then reuses qDeriv and its factorisation, which depend on ctrl / act through velocity-dependent actuator gains (affine kv, muscle): B and the act columns of A differ from direct perturbation [confirmation: they agree when repeated with the integrator option set to Euler];  (5) c25:qderiv:passive:ellipsoid-drag-minval-guard: mjd_viscous_drag divides by max(mjMINVAL, sqrt(proj_num^3 proj_denom)), a quantity of order size^12 speed^4 that is below 1e-15 for centimetre-sized non-spherical geoms at centimetres per second, so the d(A_proj)/dv term is lost there and the analytic derivative of the ellipsoid drag is off by percents [confirmation: at the same state with all velocities scaled by 1000 the guard is inactive and analytic = finite differences].  Comparison conventions: qDeriv is compared on the sparsity pattern of M only (documented restriction, computation/index.rst) and the analytic derivative is evaluated with the integrator option set to implicit (implicitfast symmetrises the fluid blocks: documented approximation).  Oracle tolerances: qDeriv vs central differences 3e-5 x scale (eps 1e-6; observed <= 4e-6); FD Jacobians vs direct perturbation 1e-6 x scale / eps-free (same arithmetic on copies); forward vs centred on smooth models (no contacts, limits, friction loss, equalities, cutoffs) 2e-3 x scale; state hashes bitwise.  The trace differential observes the real drivers through mjcb_control (inside every mj_stepSkip) and mjcb_act_gain (inside inverseSkip's mj_fwdActuation) on hinge/slide chains built by the harness; skip stages are observed through sentinels in light_xpos / cdof_dot that only mj_fwdPosition / mj_fwdVelocity rewrite.  Reals, not doubles: rounding is outside the proofs.",
 }
 
 P = "MjProof.C25."
@@ -35,7 +35,7 @@ THEOREMS = [P + t for t in (
     "hasDerivAt_mul_abs", "polyForce_deriv", "affine_actuator_vel_deriv", "muscleGain_vel_deriv",
     "setState_getState_of_mem", "setState_of_not_mem", "fd_restores_state", "fd_preserves_untouched_inputs",
     "fd_restores_state_inverse", "fd_inverse_frame_needed",
-    "fd_affine_exact", "clampedStateDiff_affine_exact", "clampedDiff_affine_exact_partial", "clampedDiff_centered_negated",
+    "fd_affine_exact", "clampedStateDiff_affine_exact", "clampedDiff_affine_exact", "clampedDiff_eq_clampedStateDiff",
 )]
 
 KERNELS = ["mju_polyForce_damper", "mjd_xPolyForce_damper", "mjd_muscleGain_vel", "mju_muscleGain", "inRange", "mju_max"]
@@ -208,7 +208,12 @@ def dev_ok(a, b, allowed):
     return mdiff(a, b) <= allowed
 
 
-def judge_qderiv(rec, dev):
+def masked(M, k):
+    return [x * mk for x, mk in zip(M[k], M["mask"])]
+
+
+def judge_qderiv(rec, dev, probe=None):
+    """probe: the record of the same state with all velocities (and the wind) scaled by 1000, or None"""
     fails = []
     M = rec["mat"]
     nv = rec["sizes"][0]
@@ -222,47 +227,71 @@ def judge_qderiv(rec, dev):
     # sparsity pattern as M ... will exclude damping in tendons which connect bodies on different branches"):
     # the comparison is made on the pattern only
     mask = M["mask"]
-    for k in ("F_act", "F_pas", "F_bias"):
-        M[k + "_full"] = M[k]
-        M[k] = [x * mk for x, mk in zip(M[k], mask)]
+    Fact, Fpas, Fbias = masked(M, "F_act"), masked(M, "F_pas"), masked(M, "F_bias")
     ci = M["ctrlinfo"]
     ctrl_out = any(ci[4 * i] and not (ci[4 * i + 1] <= ci[4 * i + 3] <= ci[4 * i + 2]) for i in range(len(ci) // 4))
     Abias = [x - y for x, y in zip(M["A_smooth1"], M["A_smooth0"])]
-    Ftot = [a + p - b for a, p, b in zip(M["F_act"], M["F_pas"], M["F_bias"])]
-    parts = (("actuator", M["A_act"], M["F_act"]), ("passive", M["A_pas"], M["F_pas"]),
-             ("bias", Abias, [-x for x in M["F_bias"]]), ("smooth", M["A_smooth1"], Ftot),
-             ("smooth-nobias", M["A_smooth0"], [a + p for a, p in zip(M["F_act"], M["F_pas"])]))
-    for name, A, F in parts:
-        scale = max(1.0, amax(A), amax(F), frc)
-        d = mdiff(A, F)
-        act_bad0 = not dev_ok(M["A_act"], M["F_act"], TOL_QDERIV * max(1.0, amax(M["A_act"]), amax(M["F_act"]), frc))
-        pas_bad0 = not dev_ok(M["A_pas"], M["F_pas"], TOL_QDERIV * max(1.0, amax(M["A_pas"]), amax(M["F_pas"]), frc))
-        if ctrl_out and act_bad0 and name in ("actuator", "smooth", "smooth-nobias") and d > TOL_QDERIV * scale:
+
+    def tol(A, F):
+        return TOL_QDERIV * max(1.0, amax(A), amax(F), frc)
+
+    def report(name, key, what, A, F, extra=None):
+        i = max(range(len(A)), key=lambda k: abs(A[k] - F[k]))
+        d = {"row": i // nv, "col": i % nv, "analytic": A[i], "finite_difference": F[i], "ctrlinfo(limited,lo,hi,ctrl)": ci}
+        d.update(extra or {})
+        fails.append((key, what + " (deviation %.3g > allowed %.3g)" % (mdiff(A, F), tol(A, F)), d))
+
+    # ---- actuator term
+    A = M["A_act"]
+    if mdiff(A, Fact) <= tol(A, Fact):
+        dev.see("qderiv:actuator", mdiff(A, Fact), tol(A, Fact))
+    else:
+        # KNOWN FINDING, kept narrow: some limited control is outside its range AND the same engine routine evaluated with
+        # the controls clamped the way mj_fwdActuation clamps them agrees with the finite differences.  Anything else that
+        # goes wrong in mjd_actuator_vel keeps the generic key.
+        Ac = M["A_act_clampedctrl"]
+        if ctrl_out and mdiff(Ac, Fact) <= tol(Ac, Fact):
             dev.m["count:" + DEFECT_CTRL] = dev.m.get("count:" + DEFECT_CTRL, 0) + 1
-            ok = False
-        elif M.get("fluidguard", [0])[0] > 0 and pas_bad0 and name in ("passive", "smooth", "smooth-nobias") and d > TOL_QDERIV * scale:
-            dev.m["count:" + DEFECT_GUARD] = dev.m.get("count:" + DEFECT_GUARD, 0) + 1
-            ok = False
+            report("actuator", DEFECT_CTRL, "mjd_actuator_vel uses the raw d->ctrl although mj_fwdActuation clamps ctrl to ctrlrange: for a "
+                   "control outside its range the analytic d(actuator force)/d(qvel) differs from central differences (and agrees "
+                   "with them once d->ctrl is clamped)", A, Fact)
         else:
-            ok = dev.see("qderiv:" + name, d, TOL_QDERIV * scale)
-        if not ok:
-            i = max(range(len(A)), key=lambda k: abs(A[k] - F[k]))
-            key, what = "c25:qderiv:" + name, "analytic d(%s force)/d(qvel) differs from central differences" % name
-            pas_bad = not dev_ok(M["A_pas"], M["F_pas"], TOL_QDERIV * max(1.0, amax(M["A_pas"]), amax(M["F_pas"]), frc))
-            if M.get("fluidguard", [0])[0] > 0 and pas_bad and name in ("passive", "smooth", "smooth-nobias"):
-                key = DEFECT_GUARD
-                what = ("mjd_viscous_drag clamps sqrt(proj_num^3 proj_denom) (of order size^12 speed^4) from below by mjMINVAL = 1e-15; "
-                        "for centimetre-sized non-spherical ellipsoid-fluid geoms moving at centimetres per second the clamp is active "
-                        "and the d(A_proj)/d(v) term of the drag derivative is lost: analytic d(passive force)/d(qvel) differs from "
-                        "central differences")
-            act_bad = not dev_ok(M["A_act"], M["F_act"], TOL_QDERIV * max(1.0, amax(M["A_act"]), amax(M["F_act"]), frc))
-            if ctrl_out and act_bad and name in ("actuator", "smooth", "smooth-nobias"):
-                key = DEFECT_CTRL
-                what = ("mjd_actuator_vel uses the raw d->ctrl although mj_fwdActuation clamps ctrl to ctrlrange: for a control outside "
-                        "its range the analytic d(actuator force)/d(qvel) differs from central differences")
-            fails.append((key, what + " (deviation %.3g > allowed %.3g)" % (d, TOL_QDERIV * scale),
-                          {"row": i // nv, "col": i % nv, "analytic": A[i], "finite_difference": F[i], "ctrlinfo(limited,lo,hi,ctrl)": ci}))
-    out = [abs(a + p - b) for a, p, b, mk in zip(M["F_act_full"], M["F_pas_full"], M["F_bias_full"], mask) if mk == 0]
+            dev.see("qderiv:actuator", mdiff(A, Fact), tol(A, Fact))
+            report("actuator", "c25:qderiv:actuator", "analytic d(actuator force)/d(qvel) differs from central differences", A, Fact)
+    # ---- passive term
+    A = M["A_pas"]
+    if mdiff(A, Fpas) <= tol(A, Fpas):
+        dev.see("qderiv:passive", mdiff(A, Fpas), tol(A, Fpas))
+    else:
+        # KNOWN FINDING, kept narrow: the mjMINVAL guard of mjd_viscous_drag is active for some non-spherical ellipsoid-fluid
+        # geom at this state AND at the same state with every velocity scaled by 1000 the guard is inactive and the analytic
+        # passive derivative agrees with the finite differences.
+        explained = False
+        if M.get("fluidguard", [0])[0] > 0 and probe is not None and not probe["error"]:
+            P = probe["mat"]
+            if finite(P["A_pas"]) and finite(P["F_pas"]) and P.get("fluidguard", [1])[0] == 0:
+                pf = max(1.0, amax(P["qfrc_actuator"]), amax(P["qfrc_passive"]), amax(P["qfrc_bias"]))
+                PF = masked(P, "F_pas")
+                explained = mdiff(P["A_pas"], PF) <= TOL_QDERIV * max(1.0, amax(P["A_pas"]), amax(PF), pf)
+        if explained:
+            dev.m["count:" + DEFECT_GUARD] = dev.m.get("count:" + DEFECT_GUARD, 0) + 1
+            report("passive", DEFECT_GUARD, "mjd_viscous_drag clamps sqrt(proj_num^3 proj_denom) (of order size^12 speed^4) from below by "
+                   "mjMINVAL = 1e-15; for centimetre-sized non-spherical ellipsoid-fluid geoms moving at centimetres per second the "
+                   "clamp is active and the d(A_proj)/d(v) term of the drag derivative is lost: analytic d(passive force)/d(qvel) "
+                   "differs from central differences (and agrees with them when all velocities are scaled by 1000)", A, Fpas,
+                   {"geoms_with_active_guard": M["fluidguard"][0]})
+        else:
+            dev.see("qderiv:passive", mdiff(A, Fpas), tol(A, Fpas))
+            report("passive", "c25:qderiv:passive", "analytic d(passive force)/d(qvel) differs from central differences", A, Fpas)
+    # ---- bias term (mjd_rne_vel): qDeriv -= d(qfrc_bias)/d(qvel)
+    Fb = [-x for x in Fbias]
+    if not dev.see("qderiv:bias", mdiff(Abias, Fb), tol(Abias, Fb)):
+        report("bias", "c25:qderiv:bias", "analytic -d(bias force)/d(qvel) (mjd_rne_vel) differs from central differences", Abias, Fb)
+    # ---- assembly: mjd_smooth_vel without the bias term is the sum of its two parts
+    S = [a + b for a, b in zip(M["A_act"], M["A_pas"])]
+    if not dev.see("qderiv:assembly", mdiff(M["A_smooth0"], S), 1e-9 * max(1.0, amax(S))):
+        report("assembly", "c25:qderiv:assembly", "mjd_smooth_vel(flg_bias=0) differs from mjd_actuator_vel + mjd_passive_vel", M["A_smooth0"], S)
+    out = [abs(a + p - b) for a, p, b, mk in zip(M["F_act"], M["F_pas"], M["F_bias"], mask) if mk == 0]
     if out and max(out) > TOL_QDERIV * frc:
         dev.m["info:derivative-outside-the-pattern-of-M(count)"] = dev.m.get("info:derivative-outside-the-pattern-of-M(count)", 0) + 1
     return fails
@@ -280,9 +309,25 @@ def judge_implicit(rec, dev):
     return []
 
 
-def judge_transfd(rec, dev, centered, smooth, other, scene=None):
-    """other: the record of the same state with the opposite differencing mode (or None)"""
+def cols_off(M, k, nv, na, nu, which):
+    """does Jacobian k differ from direct perturbation in a column of the given classes?"""
+    ndx = 2 * nv + na
+    ncol = ndx if k in ("A", "C") else nu
+    scale = max(1.0, amax(M[k]), amax(M[k + "_direct"]))
+    for t, (x, y) in enumerate(zip(M[k], M[k + "_direct"])):
+        if abs(x - y) > TOL_DIRECT * scale:
+            c = t % ncol
+            cls = ("q" if c < nv else "v" if c < 2 * nv else "a") if k in ("A", "C") else "u"
+            if cls in which:
+                return True
+    return False
+
+
+def judge_transfd(rec, dev, centered, smooth, other, scene=None, probe=None):
+    """other: the record of the same state with the opposite differencing mode (or None);
+    probe: the forward-mode record of the same state with the integrator option overridden (Euler <-> implicit)"""
     fails = []
+    probe_ok = probe is not None and not probe["error"] and all(finite(probe["mat"][q]) for q in ("A", "B", "A_direct", "B_direct"))
     integ = scene.mdl.options["integrator"] if scene else None
     poly = scene is not None and any(f in scene.feat for f in ("polydamping", "actuator-damping"))
     velgain = scene is not None and any(f in scene.feat for f in ("act:damper", "act:general", "act:muscle"))
@@ -314,12 +359,18 @@ def judge_transfd(rec, dev, centered, smooth, other, scene=None):
             if k == "D" and centered and mdiff(M[k], [-x for x in M[k + "_direct"]]) <= TOL_DIRECT * scale * 10 + 0.5 * d:
                 key = DEFECT_D_SIGN
                 what = "centred mjd_transitionFD returns D = d(sensor)/d(ctrl) with the opposite sign (clampedDiff: diff(x_plus, x_minus))"
-            elif k in ("A", "C") and cols <= {"v"} and integ == "Euler" and poly:
+            # KNOWN FINDINGS, kept narrow: besides the configuration (integrator, feature) and the affected columns, the same
+            # columns must AGREE with direct perturbation when the very same computation is repeated with the other
+            # integrator, whose factorisation does not depend on the nudged input; any other failure of the perturbation
+            # loops shows up under both integrators and keeps the generic key.
+            elif (k in ("A", "C") and cols <= {"v"} and integ == "Euler" and poly and probe_ok and
+                  not cols_off(probe["mat"], k, nv, na, nu, {"v"})):
                 key = DEFECT_EULER
                 what = ("mjd_transitionFD perturbs qvel with skipstage POS, so mj_EulerSkip reuses the factorisation of M + h*diag(damping "
                         "derivative); with polynomial damping that derivative depends on qvel: velocity columns differ from direct "
                         "perturbation of mj_step")
-            elif ((k in ("A", "C") and cols <= {"a"}) or k in ("B", "D")) and integ in ("implicit", "implicitfast") and velgain:
+            elif (((k in ("A", "C") and cols <= {"a"}) or k in ("B", "D")) and integ in ("implicit", "implicitfast") and velgain and
+                  probe_ok and not cols_off(probe["mat"], k, nv, na, nu, {"a", "u"})):
                 key = DEFECT_IMPLICIT
                 what = ("mjd_transitionFD perturbs ctrl / act with skipstage VEL, so mj_implicitSkip reuses qDeriv and its factorisation; "
                         "with a velocity-dependent actuator gain qDeriv depends on ctrl / act: those columns differ from direct "
@@ -378,10 +429,11 @@ def run_models(ctx, impl, nmodels, nstates, dev, hist, max_report=8):
         plan = []
         for _ in range(nstates):
             sl = scene.state_lines(rng)
-            ops = ["qderiv 1e-6"]
+            alt = "implicit" if integ == "Euler" else "euler"
+            ops = ["qderiv 1e-6", "qderiv 1e-6 1000"]
             if integ in ("implicit", "implicitfast"):
                 ops.append("implicit")
-            ops += ["transfd 0 1e-6", "transfd 1 1e-6", "invfd 1e-6 %d" % rng.randint(0, 1)]
+            ops += ["transfd 0 1e-6", "transfd 1 1e-6", "transfd 0 1e-6 " + alt, "invfd 1e-6 %d" % rng.randint(0, 1)]
             lines += sl + ops
             plan.append((sl, ops))
         rc, out, err = ctx.run_lines([impl], lines)
@@ -409,16 +461,19 @@ def run_models(ctx, impl, nmodels, nstates, dev, hist, max_report=8):
                 if rec["error"]:
                     hist["error:" + rec["error"][:60]] = hist.get("error:" + rec["error"][:60], 0) + 1
                     continue
+                if op in ("qderiv 1e-6 1000", "transfd 0 1e-6 " + alt):
+                    continue        # probes: only consulted to classify a failure of the primary evaluation
                 nevals += 1
-                if op.startswith("qderiv"):
-                    fs += judge_qderiv(rec, dev)
-                elif op == "implicit":
+                if op == "implicit":
                     fs += judge_implicit(rec, dev)
                 elif op.startswith("invfd"):
                     fs += judge_invfd(rec, dev)
+            if not recs["qderiv 1e-6"]["error"]:
+                fs += judge_qderiv(recs["qderiv 1e-6"], dev, recs["qderiv 1e-6 1000"])
             for op, oth in (("transfd 0 1e-6", "transfd 1 1e-6"), ("transfd 1 1e-6", "transfd 0 1e-6")):
                 if not recs[op]["error"]:
-                    fs += judge_transfd(recs[op], dev, op.split()[1] == "1", smooth, recs.get(oth) if op.split()[1] == "0" else None, scene)
+                    fs += judge_transfd(recs[op], dev, op.split()[1] == "1", smooth, recs.get(oth) if op.split()[1] == "0" else None, scene,
+                                        recs["transfd 0 1e-6 " + alt])
             ctx.count(("model", k, tuple(sl)))
             if fs:
                 nfail += 1
